@@ -433,3 +433,84 @@ func H_C05_GetVsCompaction() {
 	vrt.TraceBool("done", true)
 	vrt.Reach("gc/end")
 }
+
+// H_C05_RWMemstore: the memstore pair on its own. For every combination of {absent, value, tombstone} of a key in
+// the read store (rotated out, being flushed) and the write store: Get answers from the write store if it knows
+// the key (a tombstone there hides everything older) and from the read store otherwise, tombstones included;
+// Upsert, Delete, DeleteIfExists and Tombstone take effect in the write store and never touch the read store -
+// which is what makes their effect survive the next rotation.
+func H_C05_RWMemstore() {
+	key := []byte{vrt.Byte("k")}
+	build := func(name string) (memstore.MemStoreI, int, []byte) {
+		ms := memstore.NewMemStore()
+		st := vrt.Choose(name, 3)
+		var val []byte
+		switch st {
+		case 1:
+			val = []byte{vrt.Byte(name + ".v")}
+			vrt.Assert(ms.Upsert(key, val) == nil, "rw/setup")
+		case 2:
+			if vrt.Choose(name+".how", 2) == 0 {
+				vrt.Assert(ms.Tombstone(key) == nil, "rw/setup")
+			} else {
+				vrt.Assert(ms.Upsert(key, []byte{7}) == nil && ms.Delete(key) == nil, "rw/setup")
+			}
+		}
+		return ms, st, val
+	}
+	rs, rState, rVal := build("read")
+	ws, wState, wVal := build("write")
+	rw := &RWMemstore{readStore: rs, writeStore: ws}
+	expect := func(id string, state int, val []byte) {
+		got, err := rw.Get(key)
+		switch state {
+		case 0:
+			vrt.Assert(errors.Is(err, memstore.KeyNotFound), id+"/absent-in-both-is-not-found")
+		case 1:
+			vrt.Assert(err == nil && vrt.EqBytes(got, val), id+"/value")
+		case 2:
+			vrt.Assert(errors.Is(err, memstore.KeyTombstoned), id+"/tombstone-is-reported-as-tombstone")
+		}
+	}
+	// what the pair must answer: the write store's entry, else the read store's
+	state, val := wState, wVal
+	if wState == 0 {
+		state, val = rState, rVal
+	}
+	expect("rw/get", state, val)
+
+	readBefore, readErrBefore := rs.Get(key)
+	op := vrt.Choose("op", 5)
+	switch op {
+	case 0:
+		val = []byte{vrt.Byte("new")}
+		vrt.Assert(rw.Upsert(key, val) == nil, "rw/upsert-no-error")
+		state = 1
+	case 1:
+		vrt.Assert(rw.Delete(key) == nil, "rw/delete-no-error")
+		state = 2
+	case 2:
+		vrt.Assert(rw.DeleteIfExists(key) == nil, "rw/delete-if-exists-no-error")
+		state = 2
+	case 3:
+		vrt.Assert(rw.Tombstone(key) == nil, "rw/tombstone-no-error")
+		state = 2
+	case 4:
+		// no write
+	}
+	expect("rw/get-after-write", state, val)
+	readAfter, readErrAfter := rs.Get(key)
+	vrt.Assert(vrt.SameBytes(readBefore, readAfter) && (readErrBefore == nil) == (readErrAfter == nil) &&
+		errors.Is(readErrAfter, memstore.KeyTombstoned) == errors.Is(readErrBefore, memstore.KeyTombstoned), "rw/read-store-is-never-written")
+	if op < 4 {
+		// the effect is in the write store alone: it is what the next rotation hands to the flusher
+		got, err := ws.Get(key)
+		if state == 1 {
+			vrt.Assert(err == nil && vrt.EqBytes(got, val), "rw/write-store-holds-the-new-value")
+		} else {
+			vrt.Assert(errors.Is(err, memstore.KeyTombstoned), "rw/write-store-holds-the-tombstone")
+		}
+	}
+	vrt.TraceBool("done", true)
+	vrt.Reach("rw/end")
+}
